@@ -543,7 +543,7 @@ bool World::orderChanged(const ForRT &F) const
 void World::opMisuse(const Step &s)
 {
     cur_family = "misuse";
-    const unsigned which = s.a[0] % 8;
+    const unsigned which = s.a[0] % 11 < 8 ? s.a[0] % 11 : 8 + (s.a[0] % 11 - 8) % 2;
     desc << "misuse case " << which;
     if (tracing) { fprintf(stderr, "   doing: %s\n", desc.str().c_str()); fflush(stderr); }
     Rng R(s.seed);
@@ -749,6 +749,83 @@ void World::opMisuse(const Step &s)
                 f1 = A->forest;
                 dd_edge r(forests[A->forest].f);
                 apply(UNION, det, *A->e, r);
+                break;
+            }
+            case 8: {   // catalogue x mismatch: any binary / image operation, operand or result from another domain or of the other shape
+                typedef binary_factory& (*bf)();
+                static const struct { const char* name; bf f; bool image; } cat[] = {
+                    {"UNION", UNION, false}, {"INTERSECTION", INTERSECTION, false}, {"DIFFERENCE", DIFFERENCE, false},
+                    {"PLUS", PLUS, false}, {"MINUS", MINUS, false}, {"MULTIPLY", MULTIPLY, false}, {"DIVIDE", DIVIDE, false},
+                    {"MODULO", MODULO, false}, {"MAXIMUM", MAXIMUM, false}, {"MINIMUM", MINIMUM, false}, {"DIST_MIN", DIST_MIN, false},
+                    {"EQUAL", EQUAL, false}, {"NOT_EQUAL", NOT_EQUAL, false}, {"LESS_THAN", LESS_THAN, false},
+                    {"LESS_THAN_EQUAL", LESS_THAN_EQUAL, false}, {"GREATER_THAN", GREATER_THAN, false},
+                    {"GREATER_THAN_EQUAL", GREATER_THAN_EQUAL, false},
+                    {"PRE_IMAGE", PRE_IMAGE, true}, {"POST_IMAGE", POST_IMAGE, true},
+                    {"REACHABLE_TRAD_FS", nullptr, true}, {"REACHABLE_TRAD_NOFS", nullptr, true}, {"REACHABLE_SATUR", nullptr, true},
+                    {"VM_MULTIPLY", VM_MULTIPLY, true}, {"MV_MULTIPLY", MV_MULTIPLY, true}, {"CROSS", CROSS, false},
+                };
+                const unsigned nc = sizeof(cat) / sizeof(cat[0]);
+                const auto &op = cat[s.a[1] % nc];
+                const unsigned way = s.a[2] % 4;
+                EdgeSlot* A = liveEdge([&](const ForRT &F) { return (!op.image && strcmp(op.name, "CROSS")) || !F.spec.rel; }, s.a[3]);
+                if (!A) { note(OC_SKIP); return; }
+                const ForRT &FA = forests[A->forest];
+                // the well-formed second operand / result forest for this operation ...
+                const int relB = op.image ? 1 : FA.spec.rel;
+                const int relR = !strcmp(op.name, "CROSS") ? 1 : FA.spec.rel;
+                // ... and the one thing that is wrong with this call
+                EdgeSlot* B = liveEdge([&](const ForRT &F) {
+                    if (way == 0) return F.spec.dom != FA.spec.dom && F.spec.rel == relB;
+                    if (way == 2) return F.spec.dom == FA.spec.dom && F.spec.rel != relB;
+                    return F.spec.dom == FA.spec.dom && F.spec.rel == relB && (op.image || F.kind() == FA.kind());
+                }, s.a[4]);
+                if (!B) { note(OC_SKIP); return; }
+                int rf = pickForest(s.a[5] == 999 ? 0 : s.a[5], [&](const ForRT &F) {
+                    if (way == 1) return F.spec.dom != FA.spec.dom && F.spec.rel == relR;
+                    if (way == 3) return F.spec.dom == FA.spec.dom && F.spec.rel != relR;
+                    return F.spec.dom == FA.spec.dom && F.spec.rel == relR && F.kind() == FA.kind();
+                });
+                if (rf < 0) { note(OC_SKIP); return; }
+                static const char* ways[] = { "second operand from another domain", "result forest over another domain",
+                                              "second operand of the other shape (set/relation)", "result forest of the other shape (set/relation)" };
+                what = std::string(op.name) + " with " + ways[way];
+                desc << ": " << what << " (" << fn(A->forest) << ", " << fn(B->forest) << " -> " << fn(rf) << ")";
+                if (tracing) { fprintf(stderr, "   doing: %s\n", desc.str().c_str()); fflush(stderr); }
+                accept = { error::DOMAIN_MISMATCH, error::TYPE_MISMATCH, error::FOREST_MISMATCH, error::NOT_IMPLEMENTED,
+                           error::INVALID_OPERATION, error::UNKNOWN_OPERATION, error::INVALID_ARGUMENT };
+                f1 = A->forest; f2 = B->forest; f3 = rf;
+                stats.opcount[std::string("misuse:cat:") + op.name]++;
+                dd_edge r(forests[rf].f);
+                if (op.f) apply(op.f, *A->e, *B->e, r);
+                else if (!strcmp(op.name, "REACHABLE_TRAD_FS")) apply(REACHABLE_TRAD_FS(s.a[4] & 64), *A->e, *B->e, r);
+                else if (!strcmp(op.name, "REACHABLE_TRAD_NOFS")) apply(REACHABLE_TRAD_NOFS(s.a[4] & 64), *A->e, *B->e, r);
+                else apply(REACHABLE_SATUR(s.a[4] & 64), *A->e, *B->e, r);
+                break;
+            }
+            case 9: {   // unary catalogue x mismatch: result forest over another domain or of the other shape
+                typedef unary_factory& (*uf)();
+                static const struct { const char* name; uf f; } cat[] = {
+                    {"COPY", COPY}, {"COMPLEMENT", COMPLEMENT}, {"CONVERT_TO_INDEX_SET", CONVERT_TO_INDEX_SET},
+                };
+                const auto &op = cat[s.a[1] % 3];
+                const unsigned way = s.a[2] % 2;
+                EdgeSlot* A = liveEdge([&](const ForRT &F) { return F.kind() != FK_IDX; }, s.a[3]);
+                if (!A) { note(OC_SKIP); return; }
+                const ForRT &FA = forests[A->forest];
+                int rf = pickForest(s.a[4], [&](const ForRT &F) {
+                    if (way == 0) return F.spec.dom != FA.spec.dom && F.spec.rel == FA.spec.rel;
+                    return F.spec.dom == FA.spec.dom && F.spec.rel != FA.spec.rel;
+                });
+                if (rf < 0) { note(OC_SKIP); return; }
+                what = std::string(op.name) + (way ? " into a forest of the other shape (set/relation)" : " into a forest over another domain");
+                desc << ": " << what << " (" << fn(A->forest) << " -> " << fn(rf) << ")";
+                if (tracing) { fprintf(stderr, "   doing: %s\n", desc.str().c_str()); fflush(stderr); }
+                accept = { error::DOMAIN_MISMATCH, error::TYPE_MISMATCH, error::FOREST_MISMATCH, error::NOT_IMPLEMENTED,
+                           error::INVALID_OPERATION, error::UNKNOWN_OPERATION, error::INVALID_ARGUMENT };
+                f1 = A->forest; f3 = rf;
+                stats.opcount[std::string("misuse:cat:") + op.name]++;
+                dd_edge r(forests[rf].f);
+                apply(op.f, *A->e, r);
                 break;
             }
             default: {  // subtracting infinity (EV+)
